@@ -533,3 +533,4 @@ V("c10-restore-stderr-foreign-guard", "C10", PG, "        if self._restore_stder
 V("c10-pop-hook-noop", "C10", "rich/console.py", "        self._render_hooks.pop()\n", "        self._render_hooks[-1:]\n", "R10.17")
 V("c02-line-position-in-chars", "C02", "rich/_wrap.py", "                    if start:\n                        append(start)\n                    line_position = _cell_len(word)\n", "                    if start:\n                        append(start)\n                    line_position = len(word)\n", "R2.4")
 V("c02-line-position-in-chars-2", "C02", "rich/_wrap.py", "            elif line_position and start:\n                append(start)\n                line_position = _cell_len(word)\n", "            elif line_position and start:\n                append(start)\n                line_position = len(word)\n", "R2.4")
+V("c10-live-transient-negated", "C10", "rich/live.py", "            if self.transient:\n                self.console.control(self._live_render.restore_cursor())\n", "            if not self.transient:\n                self.console.control(self._live_render.restore_cursor())\n", "R10.18")
